@@ -83,6 +83,10 @@ theorem tie_existing_lookup :
     the Deschedule phase, then the Balance phase: the model's `cycleShape` -/
 theorem tie_cycle_shape : C16.cycleEvents = cycleShape := by decide
 
+/-- EvictionLimiter.Reset rewrites the counters inside ONE acquisition of the limiter's lock (the model's `ctr := {}` is
+    atomic w.r.t. AllowEvict / Done, which take the same lock: tie_limiter_sections) -/
+theorem tie_limiter_reset_locked : toProg C16.limiterReset = [⟨true, [.count]⟩] := by decide
+
 /-- `cycle_caps_hold` for the event sequence of the current source -/
 theorem tie_cycle_safe (caps : Caps) (s0 : Ctr) (ph1 ph2 : List (Pod × Bool)) :
     let r := runCycleEvents (some caps) false C16.cycleEvents s0 ph1 ph2
